@@ -133,6 +133,12 @@ class EncoderLayout:
                 return self._bits_or(self.vdesc(n.left), self.vdesc(n.right))
             if isinstance(n.op, ast.LShift):
                 ok2, s = self.fold(n.right)
+                if ok2 and isinstance(n.left, ast.Call) and isinstance(n.left.func, ast.Name) and n.left.func.id in ("int", "bool") \
+                        and len(n.left.args) == 1 and not n.left.keywords and (
+                            isinstance(n.left.args[0], (ast.Compare, ast.BoolOp))
+                            or (isinstance(n.left.args[0], ast.Name) and n.left.args[0].id in getattr(self, "testvals", {}))):
+                    # int(self.x is not None) << 7: the same truth value, as the number it counts for
+                    return ("bits", 0, ((("const", 1 << int(s)), 0, self._guard_text(n.left.args[0])),))
                 if ok2 and ((isinstance(n.left, ast.Name) and n.left.id in getattr(self, "testvals", {}))
                             or isinstance(n.left, (ast.Compare, ast.BoolOp))):
                     # a truth value shifted into place (hasUser << 7): the bit is set exactly when the test holds
@@ -417,6 +423,14 @@ class EncoderLayout:
                     self.stored = self.view_of(s.value)
                     self.selfbuf = getattr(self, "selfbuf", {})
                     self.selfbuf[t.attr] = self.stored
+                elif isinstance(s.value, ast.Call) and isinstance(s.value.func, ast.Name) and s.value.func.id == "bytearray" and len(s.value.args) == 1 \
+                        and not s.value.keywords and isinstance(s.value.args[0], (ast.Tuple, ast.List)):
+                    # self.encoded = bytearray((0xE0, 0x00)): the packet written out in the store itself - a buffer without a local name
+                    bn = "@self.%s" % t.attr
+                    self.bufs[bn] = self.bufexpr(s.value)
+                    self.stored = bn
+                    self.selfbuf = getattr(self, "selfbuf", {})
+                    self.selfbuf[t.attr] = bn
                 return
             raise AnalysisError("encoder of %s: assignment %s not understood" % (self.cls.name, U(s)))
         if isinstance(s, ast.AugAssign) and isinstance(s.target, ast.Name) and isinstance(s.op, ast.Add) and self.canon(s.target.id) in self.bufs:
@@ -745,7 +759,7 @@ class DecoderLayout:
 
     def fold(self, n):
         try:
-            return True, self.prog.fold(n, self.mod, self.cls)
+            return True, self.prog.fold(n, self.mod, self.cls, env=getattr(self, "constenv", None) or None)
         except NotConst:
             return False, None
 
@@ -781,6 +795,13 @@ class DecoderLayout:
         raise AnalysisError("decoder of %s: index expression %s not understood" % (self.cls.name, U(n)))
 
     def rec(self, kind, target, off, **extra):
+        src = extra.get("source")
+        if kind == "bits" and isinstance(src, dict) and src.get("kind") == "bits" and src.get("cmp") is None and isinstance(src.get("source"), dict) \
+                and isinstance(extra.get("mask"), int) and isinstance(src.get("mask"), int):
+            # bits of a local that is itself a masked (and shifted) byte:  flags = packet[0] & 0x0F ... flags & 0x08  - the bits of that byte
+            s0 = src.get("shift") or 0
+            extra = dict(extra, source=src["source"], mask=(extra["mask"] << s0) & src["mask"], shift=(extra.get("shift") or 0) + s0)
+            off = src["source"].get("off", off)
         r = dict(kind=kind, target=target, off=off, guard=tuple(self.guards), **extra)
         self.reads.append(r)
         return r
@@ -1092,6 +1113,13 @@ class DecoderLayout:
                 self.locals[t.id] = {"kind": "selflist", "attr": v.attr, "off": None}
                 return
             if isinstance(t, ast.Name):
+                okc, cv = self.fold(v)
+                if okc and isinstance(cv, int) and not isinstance(cv, bool) and not self.guards and t.id not in self.locals \
+                        and sum(1 for x in ast.walk(self.fn.node) if isinstance(x, ast.Name) and x.id == t.id and isinstance(x.ctx, ast.Store)) == 1:
+                    # a local that names a constant (failure = self.FAILURE_FLAG): masks written with it fold like the constant
+                    self.constenv = getattr(self, "constenv", {})
+                    self.constenv[t.id] = cv
+                    return
                 r = self.read_expr(v, ("local", t.id))
                 if r is not None:
                     self.locals[t.id] = r
